@@ -4,6 +4,7 @@ import json
 import os
 import re
 import shutil
+import subprocess
 
 from . import core, pdl
 from .core import VERIF, REPO, TOOLS, run_stage, sh, StageError
@@ -23,6 +24,9 @@ PY_EXCLUDE_CANON = [
     "Packet_Array_Field_VariableElementSize_ConstantSize", "Packet_Array_Field_VariableElementSize_VariableSize",
     "Packet_Array_Field_VariableElementSize_VariableCount", "Packet_Array_Field_VariableElementSize_UnknownSize",
 ]
+
+
+JAVADUMP = os.path.join(TOOLS, "javadump", "classes")
 
 
 def build_tools():
@@ -119,11 +123,67 @@ def corpus_repo():
     return out
 
 
+def java_canon_exclusions():
+    """the declarations of the canonical test file that the repository's own Java test script excludes"""
+    p = os.path.join(REPO, "pdl-compiler/tests/run_java_generator_tests.sh")
+    if not os.path.exists(p):
+        return []
+    return re.findall(r"--exclude-declaration (\w+)", open(p).read())
+
+
+def java_exclusions(text):
+    """declarations outside the Java backend's supported constructs (optional fields, padding, element sizes, custom and
+    checksum fields, per its own documentation), plus everything that depends on them"""
+    try:
+        m = pdl.parse(text, "x")
+    except Exception:
+        return None
+    decls = {d.name: d for d in m.decls if isinstance(d, pdl.Decl)}
+    bad = set()
+    for d in decls.values():
+        if d.kind in ("custom", "checksum"):
+            bad.add(d.name)
+    changed = True
+    while changed:
+        changed = False
+        for d in decls.values():
+            if d.name in bad or d.kind in ("custom", "checksum"):
+                continue
+            why = False
+            if d.parent in bad:
+                why = True
+            for f in d.fields:
+                if f.cond is not None or f.kind in ("padding", "elementsize", "checksum_start", "body"):
+                    why = True      # (the repository's own Java test script also leaves _body_ packets out)
+                if f.type in bad:
+                    why = True
+            if why:
+                bad.add(d.name)
+                changed = True
+    return sorted(bad)
+
+
 def corpus(tier, seed=0):
     ents = corpus_fixed() + corpus_repo() + corpus_witness() + corpus_borderline()
     if tier == "thorough":
         from . import corpusgen
         ents += corpusgen.generate(seed)
+    for e in ents:
+        only = e.opts.get("backends")
+        if only is not None and "java" not in only:
+            continue
+        if e.group in ("borderline", "witness"):
+            e.opts = dict(e.opts, backends=[b for b in (only or ["rust", "python", "cxx"])])
+            continue
+        ex = java_exclusions(e.text)
+        if ex is not None and e.opts.get("canonical"):
+            ex = sorted(set(ex) | set(java_canon_exclusions()))
+        if ex is None:
+            e.opts = dict(e.opts, backends=[b for b in (only or ["rust", "python", "cxx"])])
+            continue
+        excl = dict(e.opts.get("exclude") or {})
+        excl["java"] = sorted(set(excl.get("java", [])) | set(ex))
+        e.opts = dict(e.opts, exclude=excl)
     return ents
 
 
@@ -345,3 +405,31 @@ def stage_harness(tier, seed=0):
 
     d = run_stage(f"harness-{tier}-{seed}", build)
     return json.load(open(os.path.join(d, "result.json")))
+
+
+def stage_java(tier, seed=0):
+    """javac syntax trees (attributed) of every emitted Java class, per corpus description."""
+    from concurrent.futures import ThreadPoolExecutor
+    g = Gen(tier, seed)
+
+    def build(d):
+        names = [nm for nm in g.names() if g.status.get(nm, {}).get("java") == "ok"]
+        res = {}
+
+        def one(nm):
+            src = os.path.join(g.dir, "out", nm + ".java.d")
+            out = os.path.join(d, nm)
+            p = subprocess.run(["java", "-cp", JAVADUMP, "JavaDump", src, out], capture_output=True, text=True, timeout=600)
+            errs = []
+            ef = os.path.join(out, "_errors.json")
+            if os.path.exists(ef):
+                errs = json.load(open(ef))
+            return nm, p.returncode, errs, p.stderr[-300:]
+        with ThreadPoolExecutor(max_workers=12) as ex:
+            for nm, rc_, errs, err in ex.map(one, names):
+                res[nm] = {"rc": rc_, "errors": errs, "stderr": err}
+        with open(os.path.join(d, "index.json"), "w") as f:
+            json.dump(res, f)
+
+    d = run_stage(f"java-{tier}-{seed}", build)
+    return d, json.load(open(os.path.join(d, "index.json")))
